@@ -164,3 +164,136 @@ def stores_to(fn_node: ast.AST, location: str) -> List[Tuple[ast.stmt, ast.AST, 
             if loc_name(base) == location:
                 out.append((n, n.target, n.value))
     return out
+
+
+# ------------------------------------------------------------------------------------------------ shared (memoised) state
+VIEW_METHODS = ("reshape", "ravel", "view", "squeeze", "transpose", "swapaxes")
+FRESH_CALLS = ("array", "copy", "asarray_chkfinite", "astype", "zeros", "zeros_like", "ones", "ones_like", "empty", "empty_like", "full", "arange",
+               "linspace", "rfft", "fft", "irfft", "ifft", "exp", "real", "abs", "angle", "concatenate", "hstack", "vstack", "r_", "c_", "deepcopy")
+
+
+def view_source(e: ast.AST) -> ast.AST:
+    """Strip view-preserving wrappers: x.reshape(..), x.T, x[...], x.ravel() -> x"""
+    while True:
+        if isinstance(e, ast.Call) and isinstance(e.func, ast.Attribute) and e.func.attr in VIEW_METHODS:
+            e = e.func.value
+        elif isinstance(e, ast.Attribute) and e.attr in ("T", "real", "imag"):
+            e = e.value
+        elif isinstance(e, ast.Subscript):
+            e = e.value
+        else:
+            return e
+
+
+def is_memoised(fi: FunctionInfo) -> bool:
+    for d in getattr(fi.node, "decorator_list", []):
+        t = src(d)
+        if "lru_cache" in t or t.split("(")[0].split(".")[-1] in ("cache", "cached", "memoize", "memoized", "cached_property"):
+            return True
+    return False
+
+
+def shared_returning(repo: Repo) -> Dict[str, str]:
+    """Functions whose result is (or contains views of) an object shared between calls: memoised functions, and - to a
+    fixpoint - functions that return such a result, a view of it, a shallow dict copy of it, or a dict of views of it.
+    Value: 'array' or 'dict' (a dict whose values are shared arrays)."""
+    shared: Dict[str, str] = {}
+    for q, fi in repo.functions.items():
+        if is_memoised(fi):
+            kinds = {"dict" if isinstance(r.value, (ast.Dict, ast.DictComp)) else "array" for r in returns_of(fi.node) if r.value is not None}
+            shared[q] = "dict" if kinds == {"dict"} else "array"
+    changed = True
+    while changed:
+        changed = False
+        for q, fi in repo.functions.items():
+            if q in shared or isinstance(fi.node, ast.Lambda):
+                continue
+            du = None
+            for r in returns_of(fi.node):
+                if r.value is None:
+                    continue
+                du = du or DefUse(fi.node)
+                k = shared_kind(repo, fi, du, r.value, r, shared)
+                if k:
+                    shared[q] = k
+                    changed = True
+                    break
+    return shared
+
+
+def shared_kind(repo: Repo, fi: FunctionInfo, du: DefUse, e: ast.AST, at: ast.AST, shared: Dict[str, str], depth: int = 0) -> Optional[str]:
+    """'array' / 'dict' if expression e may denote (a view of / a dict of views of) a shared object, else None."""
+    if depth > 6 or e is None:
+        return None
+    if isinstance(e, (ast.Dict, ast.DictComp)):
+        vals = e.values if isinstance(e, ast.Dict) else [e.value]
+        for v in vals:
+            if v is not None and shared_kind(repo, fi, du, v, at, shared, depth + 1) == "array":
+                return "dict"
+        return None
+    # element of a shared dict: d["k"]
+    if isinstance(e, ast.Subscript) and isinstance(e.slice, ast.Constant) and isinstance(e.slice.value, str):
+        if shared_kind(repo, fi, du, e.value, at, shared, depth + 1) == "dict":
+            return "array"
+    base = view_source(e)
+    if isinstance(base, ast.Call):
+        q = repo.resolve_call(fi, base)
+        if q in shared:
+            return shared[q]
+        nm = call_name(base)
+        # shallow copies of a dict keep its (shared) values
+        if nm in ("copy",) and isinstance(base.func, ast.Attribute):
+            if shared_kind(repo, fi, du, base.func.value, at, shared, depth + 1) == "dict":
+                return "dict"
+            return None
+        if nm == "dict" and base.args:
+            if shared_kind(repo, fi, du, base.args[0], at, shared, depth + 1) == "dict":
+                return "dict"
+        return None
+    if isinstance(base, ast.Name):
+        kinds = set()
+        for d in du.reaching(base.id, at):
+            if d.kind in ("assign",) and d.value is not None and d.unpack_index is None:
+                kinds.add(shared_kind(repo, fi, du, d.value, d.stmt, shared, depth + 1))
+        kinds.discard(None)
+        if kinds:
+            return "dict" if kinds == {"dict"} else "array"
+    return None
+
+
+def inplace_mutations(fn_node: ast.AST) -> List[Tuple[ast.stmt, ast.AST]]:
+    """(statement, mutated target expression) for in-place operations: x op= y, x[...] op= y, np.put(x, ..), x.sort() ..."""
+    out = []
+    for n in walk_function(fn_node):
+        if isinstance(n, ast.AugAssign):
+            out.append((n, n.target))
+        elif isinstance(n, ast.Assign):
+            for t in n.targets:
+                if isinstance(t, ast.Subscript) and not (isinstance(t.slice, ast.Constant) and isinstance(t.slice.value, str)):
+                    out.append((n, t))  # element/slice store into an array (re-binding a dict key is not a mutation of the array)
+        elif isinstance(n, ast.Expr) and isinstance(n.value, ast.Call):
+            c = n.value
+            nm = call_name(c)
+            if nm in ("put", "copyto", "place", "putmask", "fill_diagonal") and c.args:
+                out.append((n, c.args[0]))
+            elif nm in ("sort", "fill", "resize", "partition", "itemset") and isinstance(c.func, ast.Attribute):
+                out.append((n, c.func.value))
+    return out
+
+
+def shared_mutations(repo: Repo, fi: FunctionInfo, shared: Dict[str, str] = None):
+    """In-place mutations in `fi` whose target may be (a view of) a shared/memoised array.  -> [(stmt, target, description)]"""
+    shared = shared if shared is not None else shared_returning(repo)
+    if not shared:
+        return []
+    du = DefUse(fi.node)
+    out = []
+    for st, tgt in inplace_mutations(fi.node):
+        t = tgt
+        # x[...] op= y  mutates x ; d["k"] op= y mutates the array stored under k
+        if isinstance(t, ast.Subscript) and not (isinstance(t.slice, ast.Constant) and isinstance(t.slice.value, str)):
+            t = t.value
+        k = shared_kind(repo, fi, du, t, st, shared)
+        if k == "array":
+            out.append((st, tgt, f"`{src(tgt)}` may be (a view of) an array that is cached/shared between calls"))
+    return out
